@@ -5,13 +5,15 @@ import OpusProofs.RangeCoderOps
 -/
 namespace Opus.RangeCoder
 
-/-- Invariant D: decoder state `d` reading the stream `(B, S)` mirrors encoder state `e`. -/
-structure DecInv (B : List Nat) (S : Nat) (e : Enc) (d : Dec) : Prop where
+/-- Invariant D: decoder state `d` reading the stream `(B, S)` mirrors encoder state `e`.
+    The code value is taken from a second stream `Bt` that agrees with `B` from byte 1 on (it is `B`
+    itself except in the proofs about `ec_enc_patch_initial_bits`, where the first bits differ). -/
+structure DecInv (B : List Nat) (S : Nat) (e : Enc) (d : Dec) (Bt : List Nat) : Prop where
   buf_eq : d.buf = B
   storage_eq : d.storage = S
   rng_eq : d.rng = e.rng
   nbits_eq : d.nbitsTotal = e.nbitsTotal
-  val_eq : d.val + codeVal B S (encM e + 4) / 2 + 1 = encLow e + e.rng
+  val_eq : d.val + codeVal Bt S (encM e + 4) / 2 + 1 = encLow e + e.rng
   offs_eq : d.offs = min (encM e + 4) S
   rem_eq : d.rem = ((byteAt B S (encM e + 3) : Nat) : Int)
 
@@ -58,19 +60,22 @@ theorem byteAt_lt_of_bytesOk {B : List Nat} (hB : BytesOk B) (S i : Nat) : byteA
 
 /-- One decoder normalisation step mirrors one encoder normalisation step. -/
 theorem decStep_spec (B : List Nat) (S : Nat) (hB : ∀ i, byteAt B S i < 256) (e : Enc) (d : Dec)
-    (inv : DecInv B S e d) (hr : e.rng ≤ 8388608)
+    (Bt : List Nat) (hag : ∀ i, 1 ≤ i → byteAt Bt S i = byteAt B S i)
+    (inv : DecInv B S e d Bt) (hr : e.rng ≤ 8388608)
     (hL : encLow (normStep e) = encLow e * 256) (hR : (normStep e).rng = e.rng * 256)
     (hM : encM (normStep e) = encM e + 1) (hN : (normStep e).nbitsTotal = e.nbitsTotal + 8)
-    (hc : Contains B S e) (hc' : Contains B S (normStep e)) :
-    DecInv B S (normStep e) (decStep d) := by
+    (hc : Contains Bt S e) (hc' : Contains Bt S (normStep e)) :
+    DecInv B S (normStep e) (decStep d) Bt := by
   obtain ⟨ib, is, ir, inb, iv, io, irem⟩ := inv
   obtain ⟨r1, r2, r3, r4, r5, r6, r7, r8, r9⟩ := readByte_spec B S d (encM e + 4) ib is io
   have hb1 := hB (encM e + 4)
   have hb0 := hB (encM e + 3)
   have e4 : encM e + 1 + 4 = (encM e + 4) + 1 := by omega
   have e3 : encM e + 4 = (encM e + 3) + 1 := by omega
-  have cv1 : codeVal B S (encM e + 4 + 1) = codeVal B S (encM e + 4) * 256 + byteAt B S (encM e + 4) := rfl
-  have cv0 : codeVal B S (encM e + 3 + 1) = codeVal B S (encM e + 3) * 256 + byteAt B S (encM e + 3) := rfl
+  have cv1 : codeVal Bt S (encM e + 4 + 1) = codeVal Bt S (encM e + 4) * 256 + byteAt B S (encM e + 4) := by
+    rw [← hag _ (by omega)]; rfl
+  have cv0 : codeVal Bt S (encM e + 3 + 1) = codeVal Bt S (encM e + 3) * 256 + byteAt B S (encM e + 3) := by
+    rw [← hag _ (by omega)]; rfl
   unfold Contains at hc hc'
   rw [hL, hR, hM, e4, cv1] at hc'
   refine ⟨r3, r4, ?_, ?_, ?_, ?_, ?_⟩
@@ -85,7 +90,7 @@ theorem decStep_spec (B : List Nat) (S : Nat) (hB : ∀ i, byteAt B S i < 256) (
     rw [u32_of_lt (by omega)]
     rw [e3, cv0] at iv hc ⊢
     simp only [Int.toNat_natCast]
-    generalize codeVal B S (encM e + 3) = cv at *
+    generalize codeVal Bt S (encM e + 3) = cv at *
     generalize byteAt B S (encM e + 3) = b0 at *
     generalize byteAt B S (encM e + 3 + 1) = b1 at *
     generalize encLow e = L at *
@@ -97,9 +102,10 @@ theorem decStep_spec (B : List Nat) (S : Nat) (hB : ∀ i, byteAt B S i < 256) (
 
 /-- `ec_dec_normalize` mirrors a successful `ec_enc_normalize`. -/
 theorem decNormalize_spec (B : List Nat) (S : Nat) (hB : ∀ i, byteAt B S i < 256) (e : Enc) (d : Dec)
-    (pre : EncPre e) (inv : DecInv B S e d) (hn : (encNormalize e).nbitsTotal < 4294967296)
-    (herr : (encNormalize e).error = 0) (hc : Contains B S (encNormalize e)) :
-    DecInv B S (encNormalize e) (decNormalize d) := by
+    (Bt : List Nat) (hag : ∀ i, 1 ≤ i → byteAt Bt S i = byteAt B S i) (hBt : ∀ i, byteAt Bt S i < 256)
+    (pre : EncPre e) (inv : DecInv B S e d Bt) (hn : (encNormalize e).nbitsTotal < 4294967296)
+    (herr : (encNormalize e).error = 0) (hc : Contains Bt S (encNormalize e)) :
+    DecInv B S (encNormalize e) (decNormalize d) Bt := by
   induction hm : 8388609 - e.rng using Nat.strongRecOn generalizing e d with
   | _ m ih =>
     by_cases h : 0 < e.rng ∧ e.rng ≤ 8388608
@@ -113,12 +119,12 @@ theorem decNormalize_spec (B : List Nat) (S : Nat) (hB : ∀ i, byteAt B S i < 2
         exact encNormalize_error_mono _ hne herr
       obtain ⟨s0, s1, s2, s3, s4, _⟩ := normStep_spec e pre h.2 (by omega) herr1
       obtain ⟨_, _, back1, _⟩ := encNormalize_spec (normStep e) s1 hn herr
-      have hc1 : Contains B S (normStep e) := back1 B S hB hc
-      have hc0 : Contains B S e := by
+      have hc1 : Contains Bt S (normStep e) := back1 Bt S hBt hc
+      have hc0 : Contains Bt S e := by
         have hx := encNormalize_spec e pre (by rw [encNormalize_step e h]; exact hn)
           (by rw [encNormalize_step e h]; exact herr)
-        exact hx.2.2.1 B S hB (by rw [encNormalize_step e h]; exact hc)
-      have dstep := decStep_spec B S hB e d inv h.2 s2 s3 s4 hnb2 hc0 hc1
+        exact hx.2.2.1 Bt S hBt (by rw [encNormalize_step e h]; exact hc)
+      have dstep := decStep_spec B S hB e d Bt hag inv h.2 s2 s3 s4 hnb2 hc0 hc1
       exact ih (8388609 - (normStep e).rng) (by rw [s3]; omega) (normStep e) (decStep d) s1 dstep hn herr hc rfl
     · have hd : ¬ (0 < d.rng ∧ d.rng ≤ 8388608) := by rw [inv.rng_eq]; exact h
       rw [encNormalize_done e h, decNormalize_done d hd]
